@@ -13,6 +13,7 @@ MUTATORS = ('add', 'add_fault', 'set_prop', 'update_props')
 
 def run(ctx):
     ok, res = core.proof_step(ctx)
+    dbgen.set_workdir(ctx.workdir)
     rng = ctx.rng
     found_input = False
     hists = {}
@@ -85,7 +86,8 @@ def run(ctx):
     ctx.coverage['input_distribution'] = dist
     ctx.assumptions += ['SciPy/NumPy containers (vstack, csr_matrix, np.append, fancy indexing, sum_duplicates, pickle) behave as modelled; exercised by the correspondence only',
                         'model domain: CSR rows given to from_array have no duplicate column (unsorted columns and explicit zeros are covered); counts < 2^16; '
-                        'names are None or non-empty strings; property columns keep one dtype kind; concat of only-empty databases (vstack of None blocks) excluded',
+                        'names are None or non-empty strings; property columns keep one dtype kind (an empty column is declared with its dtype); every count handed in is in [0, 2^16) - sums formed by fold may exceed it and wrap, as the model does; concat of only-empty databases (vstack of None blocks) excluded',
+                        'reload = savez+load of a .fpz file or the deprecated save+load of a .fps.bz2 file in the run work directory; numpy archive / pickle / bz2 are modelled as lossless (C08 owns the file format)',
                         'similarity calls are executed for their effect on the databases (none); their values belong to C06. Product-based measures '
                         'and unsorted CSR input only for bits <= 4096 (scipy allocates O(bits) work arrays: 32-100 GiB at 2^32)',
                         'buffer sharing of derived databases as measured with np.shares_memory on this tree (header of Model/Db.v); the names list, the '
